@@ -1,5 +1,5 @@
 import DdsModel.Enc13
-import DdsModel.Drv.C03
+import DdsModel.Drv.Util
 /-!
 Driver section of C13.  Case line (see harness/src/c13.rs):
 `<class> <fmt> <q> <m> <d> <w> <h> <inprec> <inhex> <wit> <ok3> <blocks>`.
@@ -7,13 +7,51 @@ For every block of `<blocks>` (the blocks `dds::encode` emitted): mode digits, `
 the 16 pixels decoded at 8 bit by the PROVED decoder models (`Bc.decodeBlock`, `Bc7.decodeBlock`; C03, C03x).
 For single-colour classes additionally the bytes predicted by the discrete encoder model.
 -/
-namespace Dds.Drv
-open Dds Dds.Bc Dds.Enc13
+namespace Dds.Drv.C13
+open Dds Dds.Drv Dds.Bc Dds.Enc13
+
+def fmtOfName (s : String) : Option (Fmt × Nat) :=
+  match s with
+  | "bc1" => some (.bc1, 8)
+  | "bc2" => some (.bc2, 16)
+  | "bc2p" => some (.bc2p, 16)
+  | "bc3" => some (.bc3, 16)
+  | "bc3p" => some (.bc3p, 16)
+  | "rxgb" => some (.rxgb, 16)
+  | "bc3n" => some (.bc3n, 16)
+  | "bc4u" => some (.bc4u, 8)
+  | "bc4s" => some (.bc4s, 8)
+  | "bc5u" => some (.bc5u, 16)
+  | "bc5s" => some (.bc5s, 16)
+  | _ => none
+
+def hexVal (c : Char) : Option Nat :=
+  if '0' ≤ c ∧ c ≤ '9' then some (c.toNat - 48)
+  else if 'a' ≤ c ∧ c ≤ 'f' then some (c.toNat - 87)
+  else none
+
+def hexBytes : List Char → Option (List Nat)
+  | [] => some []
+  | a :: b :: rest => do
+    let x ← hexVal a
+    let y ← hexVal b
+    let r ← hexBytes rest
+    some ((x * 16 + y) :: r)
+  | _ => none
+
+/-- same mixing function as `hash_block` in harness/src/c13.rs -/
+def hashVals (vals : List Nat) : UInt32 :=
+  vals.foldl (fun h v =>
+    let h := (h ^^^ v.toUInt32) * 16777619
+    h ^^^ (h >>> 15)) 0x811C9DC5
+
+def hex8 (h : UInt32) : String :=
+  let d := Nat.toDigits 16 h.toNat
+  String.ofList (List.replicate (8 - d.length) '0' ++ d)
 
 def c13Fmt (s : String) : Option (Option Fmt × Nat) :=
   if s = "bc7" then some (none, 16)
-  else if s = "bc2rgb" ∨ s = "bc3rgb" then none
-  else (c03Fmt s).map fun fb => (some fb.1, fb.2)
+  else (fmtOfName s).map fun fb => (some fb.1, fb.2)
 
 def c13Quality (s : String) : Option Quality :=
   match s with
@@ -53,7 +91,7 @@ def blockNat (blk : Nat → Nat) : Nat := (List.range 16).foldl (fun acc i => ac
 def c13Decode (f : Option Fmt) (blk : Nat → Nat) : List Nat :=
   match f with
   | none => (Bc7.decodeBlock (blockNat blk)).flatten
-  | some f => (decodeBlockWith fastConv f .u8 blk).flatten
+  | some f => (Bc.decodeBlock f .u8 blk).flatten
 
 def hex2 (v : Nat) : String :=
   let d := Nat.toDigits 16 (v % 256)
@@ -103,4 +141,8 @@ def runC13 (line : String) : String :=
     | _, _, _, _, _ => "bad-case"
   | _ => "bad-case"
 
+end Dds.Drv.C13
+
+namespace Dds.Drv
+def runC13 : String → String := C13.runC13
 end Dds.Drv
